@@ -143,6 +143,70 @@ def r18_3(ctx):
     ctx.floor('R18.3', 'greedy approximation loops', n, 8)
 
 
+def r18_6(ctx):
+    """Cumulative error budgets: a local that is initialised to a numeric literal before an approximation loop and is read
+    in a tolerance exit test of that loop must be updated inside the loop (otherwise every step is compared with the
+    tolerance on its own and the total error is unbounded by it), and the update must happen on every path that goes on
+    to discard more of the tensor."""
+    n = 0
+    for mod, names in GREEDY.items():
+        for name in names + (('find_truncation_rank',) if mod == T else ()):
+            fi = ctx.prog.maybe_func('%s.%s' % (mod, name))
+            if fi is None:
+                if name == 'find_truncation_rank':
+                    raise AnchorMissing('R18.6: %s.%s' % (mod, name))
+                continue
+            params = {a.arg for a in fi.node.args.args}
+            for l in [x for x in own_nodes(fi.node) if isinstance(x, (ast.While, ast.For))]:
+                inits = {}
+                for s in own_nodes(fi.node):
+                    if isinstance(s, ast.Assign) and len(s.targets) == 1 and isinstance(s.targets[0], ast.Name) and s.lineno < l.lineno \
+                            and isinstance(s.value, ast.Constant) and isinstance(s.value.value, (int, float)) and not isinstance(s.value.value, bool) \
+                            and guards.in_loop(s, fi.node) is None:
+                        inits[s.targets[0].id] = s
+                if not inits:
+                    continue
+                tests = []
+                if isinstance(l, ast.While):
+                    tests.append(l.test)
+                for b in [x for x in ast.walk(l) if isinstance(x, (ast.Break, ast.Return)) and nearest_loop(x, fi.node) is l]:
+                    tests += [nd for (_t, _p, nd) in guards.path_conditions(b, stop=l)]
+                for v, init in sorted(inits.items()):
+                    if v in params:
+                        continue
+                    reading = [t for t in tests if any(isinstance(x, ast.Name) and x.id == v for x in ast.walk(t))
+                               and any(isinstance(x, ast.Compare) for x in ast.walk(t))]
+                    if not reading:
+                        continue
+                    # only budgets compared with a tolerance, not iteration counters compared with a limit
+                    tnames = set()
+                    for t in reading:
+                        tnames |= {x.id for x in ast.walk(t) if isinstance(x, ast.Name)}
+                    if not any('tol' in nm or nm in TOL_WORDS for nm in tnames - {v}):
+                        continue
+                    n += 1
+                    writes = [s for s in ast.walk(l) if (isinstance(s, ast.AugAssign) and isinstance(s.target, ast.Name) and s.target.id == v)
+                              or (isinstance(s, ast.Assign) and any(isinstance(t, ast.Name) and t.id == v for t in s.targets))]
+                    st = 'error budget %s (tested in `%s`)' % (v, src(reading[0])[:60])
+                    if not writes:
+                        ctx.violated('R18.6', fi.qual, st, reading[0],
+                                     '%s is initialised to %s before the loop, tested against the tolerance inside it, but never updated in the loop: '
+                                     'each step is compared with the tolerance on its own, so the accumulated error of k discarded parts can reach '
+                                     'sqrt(k) times the tolerance' % (v, src(init.value)))
+                        continue
+                    # the update must lie on every path that continues to shrink/extend the iterate
+                    shrink = [s for s in ast.walk(l) if isinstance(s, ast.Assign) and nearest_loop(s, fi.node) is l
+                              and any(isinstance(t, ast.Name) and t.id in params for t in s.targets)]
+                    wfacts = [set((t, p) for (t, p, _n) in guards.path_conditions(w, stop=l)) for w in writes]
+                    ok = True
+                    for s in shrink:
+                        sf = set((t, p) for (t, p, _n) in guards.path_conditions(s, stop=l))
+                        if not any(wf <= sf for wf in wfacts):
+                            ok = None
+                    ctx.decide('R18.6', fi.qual, st, ok, writes[0], 'updated inside the loop on the paths that continue')
+    ctx.floor('R18.6', 'error budgets compared with a tolerance', n, 1)
+
+
 def nearest_loop(node, fn):
     p = parent(node)
     while p is not None and p is not fn:
@@ -196,3 +260,4 @@ def run(ctx):
     r18_3(ctx)
     r18_4(ctx)
     r18_5(ctx)
+    r18_6(ctx)
